@@ -263,3 +263,10 @@ func Catch(f func()) (p any) {
 	f()
 	return nil
 }
+
+// ID turns an arbitrary case description into a short token usable in the write-ahead log.
+func ID(s string) string {
+	h := fnv.New64a()
+	h.Write([]byte(s))
+	return fmt.Sprintf("%016x", h.Sum64())
+}
